@@ -15,8 +15,10 @@ TV : premise P6, the glue of the HMC / NUTS kernels with blackjax (Trace_Glue): 
      model with a transformed parameter, dict model), blackjax starts at the current
      position with that log-density, its output position is written back and fully
      refreshed, other parameters and the tuning state are untouched.
-Premises decided under their own ids: P1 acceptance rule = C05, P2 corrections = C06,
-P3 exact conditionals = C13, P4 sequencing / coherence = C09, P5 frozen tuning = C11.
+Premises decided in depth under their own ids: P1 acceptance rule = C05, P2 corrections =
+C06, P3 exact conditionals = C13, P4 sequencing / coherence = C09, P5 frozen tuning = C11.
+A reduced conformance run of P1-P3 (same trace specs, fewer scenarios) is part of this
+check as well, so that a broken premise is reported under C04 too (keys `premise:P<k>:...`).
 Not decided: that blackjax's integrators / trajectory samplers are pi-invariant, and PRNG
 quality (trusted third-party base).  No statistical sampling test is run.
 """
@@ -53,5 +55,27 @@ def run(chk: Check):
            nontrivial=lambda t: t["hdr"]["model"] == "liesel" or len(t["hdr"]["block"]) >= 1,
            keyfn=lambda r: f"glue:{r.trace['hdr']['kernel']}:{r.trace['hdr']['model']}:{r.conjunct}",
            describe=lambda r: r.trace["ev"][r.line - 1].get("crash", "")[:300])
+    premises(chk, rng)
     chk.assumptions += ["C04 is decided by reduction: design theorem (TLC) + conformance of premises; the pi-invariance of "
                         "blackjax's HMC/NUTS and PRNG quality are trusted"]
+
+
+def premises(chk, rng):
+    """Reduced conformance of the premises P1-P3 (decided in depth by C05 / C06 / C13)."""
+    from harness import gibbs_driver, mh_driver, parallel, proposals_driver as P
+    # P1: acceptance rule of mh_step
+    cmb = mh_driver.combos()
+    seeds = [rng.randrange(1 << 30) for _ in range(8 if chk.quick else 64)]
+    chk.tv("Trace_MHStep.tla", mh_driver.traces_for_keys(seeds, cmb, "vmap_jit"), tag="premise_P1_acceptance",
+           keyfn=lambda r: f"premise:P1:mh_step:{r.conjunct}")
+    # P2: corrections of IWLS / RW / MH proposals (families with state-dependent information first)
+    js = [j for j in P.jobs(chk.quick) if j["family"] in ("poisson", "coupled", "poisson_userchol", "gamma_mh")]
+    tr = [t for res in parallel.run_jobs("harness.proposals_driver", "run", js) for t in res]
+    chk.tv("Trace_Proposals.tla", tr, tag="premise_P2_corrections", timeout=900,
+           keyfn=lambda r: f"premise:P2:{r.trace['hdr']['kernel']}:{r.conjunct}",
+           describe=lambda r: f"family {r.trace['hdr']['family']} step {r.trace['hdr']['step']}")
+    # P3: Gibbs kernels draw from the exact full conditional of the *current* model state
+    gt = [{"hdr": {"kind": "tau2", "d": 3, "order": 1, "nontrivial": True}, "ev": gibbs_driver.tau2_events(rng, 3, 1, nkeys=3)},
+          {"hdr": {"kind": "bernoulli_direct", "nontrivial": True},
+           "ev": gibbs_driver.discrete_events(rng, "bernoulli_direct", nkeys=64)}]
+    chk.tv("Trace_Gibbs.tla", gt, tag="premise_P3_conditionals", keyfn=lambda r: f"premise:P3:{r.trace['hdr']['kind']}:{r.conjunct}")
